@@ -13,6 +13,13 @@ def main():
     if args:
         seeded = [s for s in seeded if s in args or s.split("-")[0] in args]
     rows = []
+    for s in list(seeded):
+        try:
+            if json.load(open(os.path.join(ROOT, "seeded", s, "meta.json"))).get("superseded"):
+                print(f"{s}: superseded by a repair of the tree (no longer breaks the property), skipped", flush=True)
+                seeded.remove(s)
+        except Exception:
+            pass
     for s in seeded:
         prop = s.split("-")[0]
         checks = ALL if every else [prop]
